@@ -267,10 +267,12 @@ void RateDecomposer::decompose(expression_t expr, bool inforall)
         // Enter the forall to look for clock rates but don't
         // record them, rather the forall expression.
         decompose(expr[1], true);
-        invariant = invariant.empty()
-                        ? expr
-                        : invariant = expression_t::create_binary(AND, invariant, expr, expr.get_position(),
-                                                                  type_t::create_primitive(INVARIANT_WR));
+        if (!inforall) {  // (a quantifier inside a quantifier is part of the outer one)
+            invariant = invariant.empty()
+                            ? expr
+                            : invariant = expression_t::create_binary(AND, invariant, expr, expr.get_position(),
+                                                                      type_t::create_primitive(INVARIANT_WR));
+        }
     }
 }
 
